@@ -2831,6 +2831,17 @@ func (db *DB) Export(ctx context.Context, dst io.Writer) (ltx.Pos, error) {
 	// Release write lock, if acquired.
 	gs.write.Unlock()
 
+	// We hold SHARED so no writer can be changing the database file right now.
+	// A journal with a valid header therefore is a hot journal: the database
+	// file contains pages of a transaction that was neither committed nor
+	// rolled back, e.g. because its writer was cut off by a role change, and
+	// it has to be recovered before it can be exported. (A writer that runs
+	// with synchronous=OFF has a valid header while it only holds RESERVED;
+	// the export is refused then as well and can be retried.)
+	if ok, err := db.isJournalHeaderValid(); err == nil && ok {
+		return pos, fmt.Errorf("database has a journal in use, try again after it is committed or rolled back")
+	}
+
 	// Acquire the CKPT & READ locks to prevent checkpointing, in case this is in WAL mode.
 	if err := gs.ckpt.RLock(ctx); err != nil {
 		return pos, fmt.Errorf("acquire CKPT read lock: %w", err)
